@@ -16,6 +16,7 @@ import (
 	ma "github.com/multiformats/go-multiaddr"
 	mh "github.com/multiformats/go-multihash"
 
+	kaddht "github.com/libp2p/go-libp2p-kad-dht"
 	"github.com/libp2p/go-libp2p-kad-dht/internal/vmc"
 	"github.com/libp2p/go-libp2p-kad-dht/internal/vmc/kid"
 	"github.com/libp2p/go-libp2p-kad-dht/internal/vmc/sim"
@@ -31,6 +32,7 @@ type c03fcfg struct {
 	op         string
 	frac       float64
 	behaviours []string
+	instant    bool // every responder answers the moment it is asked: several answers are in the search's hands at once
 }
 
 var c03fOps = []string{"putvalue", "provide", "getvalue", "searchvalue", "findprov-c0", "findprov-c1", "findpeer", "providemany", "putmany"}
@@ -42,7 +44,26 @@ func c03fConfigs(tier string) []vmc.Cfg {
 		for _, frac := range []float64{0.3, 1} {
 			for m := 0; m < 64; m++ {
 				as := []string{beh[m%4], beh[(m/4)%4], beh[(m/16)%4]}
-				out = append(out, vmc.Cfg{Name: fmt.Sprintf("fullrt/%s/frac%.1f/%s", op, frac, strings.Join(as, ",")), Budget: 1, Data: c03fcfg{op, frac, as}})
+				out = append(out, vmc.Cfg{Name: fmt.Sprintf("fullrt/%s/frac%.1f/%s", op, frac, strings.Join(as, ",")), Budget: 1, Data: c03fcfg{op: op, frac: frac, behaviours: as}})
+			}
+		}
+	}
+	// five responders (K=5) for the value searches with a quorum: more valid answers than the search needs
+	for _, op := range []string{"getvalue-q1", "searchvalue-q1", "getvalue-q2"} {
+		for _, frac := range []float64{0.3, 1} {
+			for i := -1; i < 5; i++ {
+				for _, b := range beh[1:] {
+					as := []string{sim.BHonest, sim.BHonest, sim.BHonest, sim.BHonest, sim.BHonest}
+					if i >= 0 {
+						as[i] = b
+					} else if b != beh[1] {
+						continue
+					}
+					out = append(out, vmc.Cfg{Name: fmt.Sprintf("fullrt/%s/frac%.1f/%s", op, frac, strings.Join(as, ",")), Budget: 1, Data: c03fcfg{op: op, frac: frac, behaviours: as}})
+					if b != sim.BSilent {
+						out = append(out, vmc.Cfg{Name: fmt.Sprintf("fullrt/%s/frac%.1f/%s/instant", op, frac, strings.Join(as, ",")), Budget: 1, Data: c03fcfg{op: op, frac: frac, behaviours: as, instant: true}})
+					}
+				}
 			}
 		}
 	}
@@ -66,7 +87,7 @@ func c03fLeaks() []string {
 
 func c03fRun(x *vmc.X, cfg vmc.Cfg) {
 	c := cfg.Data.(c03fcfg)
-	e, err := newFRT(3, 0, WithSuccessWaitFraction(c.frac))
+	e, err := newFRT(len(c.behaviours), 0, WithSuccessWaitFraction(c.frac))
 	if err != nil {
 		x.Failf("C03/setup", "%v", err)
 		return
@@ -82,7 +103,7 @@ func c03fRun(x *vmc.X, cfg vmc.Cfg) {
 	vkey := kid.KeyWithPrefix("v", "000", 0)
 	var crawl []crawled
 	var ids []peer.ID
-	for i, cell := range []string{"000", "001", "100"} {
+	for i, cell := range []string{"000", "001", "100", "010", "110"}[:len(c.behaviours)] {
 		id := kid.Peer(cell, 6)
 		ids = append(ids, id)
 		e.w.Add(fmt.Sprintf("p%d", i), id, c.behaviours[i])
@@ -93,8 +114,8 @@ func c03fRun(x *vmc.X, cfg vmc.Cfg) {
 	}
 	e.net.Instant = true
 	e.recrawl(crawl)
-	e.net.Instant = false
-	e.net.InstantDial = false
+	e.net.Instant = c.instant
+	e.net.InstantDial = c.instant
 
 	ctx, cancel := context.WithCancel(context.Background())
 	defer cancel()
@@ -107,6 +128,21 @@ func c03fRun(x *vmc.X, cfg vmc.Cfg) {
 		run(func() string { return fmt.Sprintf("err=%v", e.frt.Provide(ctx, pcid, true) != nil) })
 	case "getvalue":
 		run(func() string { _, err := e.frt.GetValue(ctx, vkey); return fmt.Sprintf("err=%v", err != nil) })
+	case "getvalue-q1", "getvalue-q2":
+		q := int(c.op[len(c.op)-1] - '0')
+		run(func() string { _, err := e.frt.GetValue(ctx, vkey, kaddht.Quorum(q)); return fmt.Sprintf("err=%v", err != nil) })
+	case "searchvalue-q1":
+		run(func() string {
+			ch, err := e.frt.SearchValue(ctx, vkey, kaddht.Quorum(1))
+			if err != nil {
+				return "err"
+			}
+			n := 0
+			for range ch {
+				n++
+			}
+			return fmt.Sprintf("values=%d", min(n, 1))
+		})
 	case "searchvalue":
 		run(func() string {
 			ch, err := e.frt.SearchValue(ctx, vkey)
